@@ -215,14 +215,14 @@ Proof. intro hist. exact (proj1 (proj2 (hinv_reach hist))). Qed.
 
 (* ================================================================ Hosts.Match never faults *)
 
-Lemma hosts_match_total_safe : forall t host ps, tree_safe t -> hosts_match t host ps <> None.
+Lemma hosts_match_total_safe : forall t host ps, tree_safe t -> hosts_match_raw t host ps <> None.
 Proof.
-  intros t host ps Hs. unfold hosts_match.
+  intros t host ps Hs. unfold hosts_match_raw.
   destruct (tree_handler t GET (normalise_host host) ps) as [ok n h ps'|s] eqn:E; [discriminate|].
   now elim (handler_total t GET (normalise_host host) ps s Hs).
 Qed.
 
-Theorem hosts_match_total : forall hist host ps, hosts_match (hosts_reach hist) host ps <> None.
+Theorem hosts_match_total : forall hist host ps, hosts_match_raw (hosts_reach hist) host ps <> None.
 Proof. intros hist host ps. apply hosts_match_total_safe, hosts_safe_reachable. Qed.
 
 (* ================================================================ what a rejection is *)
@@ -291,10 +291,10 @@ Proof. reflexivity. Qed.
    - the walk found nothing.
    A node found by the walk answers GET (has_get), so "found but 405" does not occur. *)
 Lemma hosts_reject_cases : forall t host ps ps', kids_ok has_get (troot t) ->
-  hosts_match t host ps = Some (false, ps') ->
+  hosts_match_raw t host ps = Some (false, ps') ->
   ps' = ps \/ match_children (tree_fuel t) (troot t) (normalise_host host) ps = MNone ps'.
 Proof.
-  intros t host ps ps' Hg H. unfold hosts_match in H. rewrite tree_handler_eq in H.
+  intros t host ps ps' Hg H. unfold hosts_match_raw in H. rewrite tree_handler_eq in H.
   rewrite get_not_trace in H.
   assert (H' : match handler_of t GET
                  (if beqb (normalise_host host) (bs "*") || beqb (normalise_host host) []
@@ -332,7 +332,7 @@ Definition disjoint_all (t : tree) (ps : params) : Prop :=
 (* hypotheses used: idx_lit at every node (from order_ok), has_get below the root, and the
    freshness of the names below the root w.r.t. [ps]; names_fresh_at is NOT needed *)
 Lemma hosts_reject_clean_all : forall t host ps ps', tree_order_ok t -> kids_ok has_get (troot t) ->
-  disjoint_all t ps -> hosts_match t host ps = Some (false, ps') -> ps' = ps.
+  disjoint_all t ps -> hosts_match_raw t host ps = Some (false, ps') -> ps' = ps.
 Proof.
   intros t host ps ps' Ho Hg Hd H.
   destruct (hosts_reject_cases _ _ _ _ Hg H) as [E|MC]; [exact E|].
@@ -358,7 +358,7 @@ Qed.
    addition, the empty name is not a key of the incoming parameters. *)
 Theorem hosts_reject_clean_partial : forall hist host ps ps',
   disjoint_from (hosts_reach hist) ps -> ctx_get ps [] = None ->
-  hosts_match (hosts_reach hist) host ps = Some (false, ps') -> ps' = ps.
+  hosts_match_raw (hosts_reach hist) host ps = Some (false, ps') -> ps' = ps.
 Proof.
   intros hist host ps ps' Hd He H. destruct (hinv_reach hist) as [Ho [_ [Hg Hl]]].
   apply (hosts_reject_clean_all _ host ps ps' Ho Hg); [|exact H].
@@ -367,14 +367,14 @@ Qed.
 
 Theorem hosts_clean_when_disjoint_partial : forall hist,
   forall ps, disjoint_from (hosts_reach hist) ps -> ctx_get ps [] = None ->
-  forall host ps', hosts_match (hosts_reach hist) host ps = Some (false, ps') -> ps' = ps.
+  forall host ps', hosts_match_raw (hosts_reach hist) host ps = Some (false, ps') -> ps' = ps.
 Proof. intros hist ps Hd He host ps' H. exact (hosts_reject_clean_partial hist host ps ps' Hd He H). Qed.
 
 (* the same with the side condition of the 404-exact theorem itself (every node below the
    root, a literal one having whatever name its segment carries) *)
 Theorem hosts_reject_clean_desc : forall hist host ps ps',
   (forall d, desc (troot (hosts_reach hist)) d -> ctx_get ps (sname (nseg d)) = None) ->
-  hosts_match (hosts_reach hist) host ps = Some (false, ps') -> ps' = ps.
+  hosts_match_raw (hosts_reach hist) host ps = Some (false, ps') -> ps' = ps.
 Proof.
   intros hist host ps ps' Hd H. destruct (hinv_reach hist) as [Ho [_ [Hg _]]].
   exact (hosts_reject_clean_all _ host ps ps' Ho Hg Hd H).
@@ -382,7 +382,7 @@ Qed.
 
 (* unconditionally, a rejection never adds or changes a parameter: it can only lose some *)
 Theorem hosts_reject_sub_params : forall hist host ps ps',
-  hosts_match (hosts_reach hist) host ps = Some (false, ps') -> sub_params ps' ps.
+  hosts_match_raw (hosts_reach hist) host ps = Some (false, ps') -> sub_params ps' ps.
 Proof.
   intros hist host ps ps' H. destruct (hinv_reach hist) as [Ho [_ [Hg _]]].
   destruct (hosts_reject_cases _ _ _ _ Hg H) as [->|MC]; [apply sub_params_refl|].
@@ -392,7 +392,7 @@ Qed.
 
 (* the case used by Group dispatch: the context is empty *)
 Theorem hosts_clean_empty_ctx : forall hist host ps',
-  hosts_match (hosts_reach hist) host [] = Some (false, ps') -> ps' = [].
+  hosts_match_raw (hosts_reach hist) host [] = Some (false, ps') -> ps' = [].
 Proof.
   intros hist host ps' H. destruct (hinv_reach hist) as [Ho [_ [Hg _]]].
   apply (hosts_reject_clean_all _ host [] ps' Ho Hg); [|exact H].
@@ -426,14 +426,14 @@ Example ex_hosts_names : tree_names ex_hosts = [bs "sub"].
 Proof. vm_compute. reflexivity. Qed.
 
 Example ex_hosts_accept :
-  hosts_match ex_hosts (bs "x.example.com:8080") [] = Some (true, [(bs "sub", bs "x")]).
+  hosts_match_raw ex_hosts (bs "x.example.com:8080") [] = Some (true, [(bs "sub", bs "x")]).
 Proof. vm_compute. reflexivity. Qed.
 
-Example ex_hosts_reject_empty : hosts_match ex_hosts (bs "api.example.org") [] = Some (false, []).
+Example ex_hosts_reject_empty : hosts_match_raw ex_hosts (bs "api.example.org") [] = Some (false, []).
 Proof. vm_compute. reflexivity. Qed.
 
 Example ex_hosts_reject_keeps :
-  hosts_match ex_hosts (bs "api.example.org") [(bs "zz", bs "keep")] = Some (false, [(bs "zz", bs "keep")]).
+  hosts_match_raw ex_hosts (bs "api.example.org") [(bs "zz", bs "keep")] = Some (false, [(bs "zz", bs "keep")]).
 Proof. vm_compute. reflexivity. Qed.
 
 (* the hypotheses of the partial theorem hold on this input *)
@@ -444,7 +444,7 @@ Proof.
 Qed.
 
 Example ex_hosts_reject_by_theorem : forall host ps',
-  hosts_match ex_hosts host [(bs "zz", bs "keep")] = Some (false, ps') -> ps' = [(bs "zz", bs "keep")].
+  hosts_match_raw ex_hosts host [(bs "zz", bs "keep")] = Some (false, ps') -> ps' = [(bs "zz", bs "keep")].
 Proof.
   intros host ps' H.
   exact (hosts_reject_clean_partial ex_hosts_hist host _ ps' (proj1 ex_hosts_disjoint) (proj2 ex_hosts_disjoint) H).
@@ -452,7 +452,7 @@ Qed.
 
 (* a host that the parameter node accepts and then gives up (".cn" is left over): the capture
    is deleted again *)
-Example ex_hosts_abandon : hosts_match ex_hosts (bs "x.example.com.cn") [] = Some (false, []).
+Example ex_hosts_abandon : hosts_match_raw ex_hosts (bs "x.example.com.cn") [] = Some (false, []).
 Proof. vm_compute. reflexivity. Qed.
 
 (* ================================================================ counterexamples *)
@@ -465,12 +465,12 @@ Example cx_hosts_names : tree_names (hosts_reach cx_hosts_hist) = [].
 Proof. vm_compute. reflexivity. Qed.
 
 Example cx_hosts_result :
-  hosts_match (hosts_reach cx_hosts_hist) (bs "ad") [([], bs "v")] = Some (false, []).
+  hosts_match_raw (hosts_reach cx_hosts_hist) (bs "ad") [([], bs "v")] = Some (false, []).
 Proof. vm_compute. reflexivity. Qed.
 
 Theorem hosts_reject_clean_refuted :
   ~ (forall hist host ps ps', disjoint_from (hosts_reach hist) ps ->
-       hosts_match (hosts_reach hist) host ps = Some (false, ps') -> ps' = ps).
+       hosts_match_raw (hosts_reach hist) host ps = Some (false, ps') -> ps' = ps).
 Proof.
   intro H. specialize (H cx_hosts_hist (bs "ad") [([], bs "v")] []).
   assert (Hd : disjoint_from (hosts_reach cx_hosts_hist) [([], bs "v")]).
@@ -481,9 +481,9 @@ Qed.
 (* the unconditional [hosts_clean] of Proofs/Group.v does not hold for reachable trees: an
    incoming parameter that has the name of a parameter of the tree is lost on rejection *)
 Example cx_hosts_unconditional :
-  hosts_match ex_hosts (bs "x.example.com.cn") [(bs "sub", bs "keep")] = Some (false, []).
+  hosts_match_raw ex_hosts (bs "x.example.com.cn") [(bs "sub", bs "keep")] = Some (false, []).
 Proof. vm_compute. reflexivity. Qed.
 
 Theorem hosts_clean_unconditional_refuted :
-  ~ (forall hist host ps ps', hosts_match (hosts_reach hist) host ps = Some (false, ps') -> ps' = ps).
+  ~ (forall hist host ps ps', hosts_match_raw (hosts_reach hist) host ps = Some (false, ps') -> ps' = ps).
 Proof. intro H. specialize (H _ _ _ _ cx_hosts_unconditional). discriminate H. Qed.
